@@ -362,3 +362,145 @@ def build_T19m(tree):
 
 
 TARGETS['T19m'] = {'file': 'pm/content.py', 'build': build_T19m}
+
+
+# ------------------------------------------------------------------ T19l: the frame loop of ParametricMap.__init__
+def _shape_axis(node, what):
+    """`range(pixel_array.shape[K])` -> K"""
+    t = ast.unparse(node)
+    import re
+    m = re.fullmatch(r'range\(pixel_array\.shape\[(\d)\]\)', t)
+    if not m:
+        raise Unsupported(f'{what} loop of ParametricMap.__init__ no longer runs over range(pixel_array.shape[k]): {t}')
+    return int(m.group(1))
+
+
+def build_T19l(tree):
+    """The loop skeleton of `ParametricMap.__init__` that decides WHICH plane becomes WHICH frame and what is attached to it
+    (audit D, C19 item 2): nesting order and ranges of the two loops, the subscript of `plane = pixel_array[..]`, the index
+    used for `plane_positions[..]` / `plane_position_values[..]` / `real_world_value_mappings[..]`, the sharing threshold
+    `has_multiple_mappings`, the shared mapping index, one record and one frame appended per iteration (in that iteration),
+    `NumberOfFrames = len(frames)`, `b''.join(frames)` / `encapsulate(frames)` into the attribute chosen by T19a, and the
+    two arms of `_encode_frame`.  Emitted as Lean definitions over the loop variables; `Model/PMap.build` is written with
+    them, `Proofs/PMap.build_ok` shows what they amount to."""
+    init = find_func(tree, 'ParametricMap.__init__')
+    body = strip_doc(init.body)
+    outer = [s for s in body if isinstance(s, ast.For) and ast.unparse(s.iter).startswith('range(pixel_array.shape[')]
+    if len(outer) != 1:
+        raise Unsupported('frame loop of ParametricMap.__init__ not found')
+    outer = outer[0]
+    inner = [s for s in outer.body if not isinstance(s, (ast.Expr,)) or not isinstance(getattr(s, 'value', None), ast.Constant)]
+    if len(inner) != 1 or not isinstance(inner[0], ast.For):
+        raise Unsupported('the outer frame loop no longer consists of exactly one inner loop')
+    inner = inner[0]
+    if outer.orelse or inner.orelse:
+        raise Unsupported('for-else in the frame loop')
+    ov, iv = ast.unparse(outer.target), ast.unparse(inner.target)
+    oa, ia = _shape_axis(outer.iter, 'outer'), _shape_axis(inner.iter, 'inner')
+    if {oa, ia} != {0, 3} or ov == iv or not (ov.isidentifier() and iv.isidentifier()):
+        raise Unsupported(f'frame loops run over axes {oa}, {ia} with variables {ov}, {iv}')
+    for n in ast.walk(inner):
+        if isinstance(n, (ast.Break, ast.Continue, ast.Return, ast.While)) or (isinstance(n, ast.For) and n is not inner):
+            raise Unsupported('control flow inside the frame loop body: ' + type(n).__name__)
+        if isinstance(n, ast.Name) and isinstance(n.ctx, ast.Store) and n.id in (ov, iv) and n is not inner.target:
+            raise Unsupported('a loop variable is reassigned in the frame loop body')
+
+    def var_of(expr, what):
+        t = ast.unparse(expr)
+        if t not in (ov, iv):
+            raise Unsupported(f'{what} is indexed by `{t}`, not by a loop variable')
+        return t
+    stmts = inner.body
+    # plane = pixel_array[a, :, :, b]; frames.append(self._encode_frame(plane)) as the LAST two statements
+    if len(stmts) < 2 or ast.unparse(stmts[-1]) != 'frames.append(self._encode_frame(plane))':
+        raise Unsupported('the loop body no longer ends with frames.append(self._encode_frame(plane))')
+    pl = stmts[-2]
+    if not (isinstance(pl, ast.Assign) and ast.unparse(pl.targets[0]) == 'plane' and isinstance(pl.value, ast.Subscript)
+            and ast.unparse(pl.value.value) == 'pixel_array' and isinstance(pl.value.slice, ast.Tuple)
+            and len(pl.value.slice.elts) == 4 and [ast.unparse(e) for e in pl.value.slice.elts[1:3]] == [':', ':']):
+        raise Unsupported('plane is no longer pixel_array[a, :, :, b]: ' + ast.unparse(pl))
+    ax0 = var_of(pl.value.slice.elts[0], 'axis 0 of the plane')
+    ax3 = var_of(pl.value.slice.elts[3], 'axis 3 of the plane')
+    if [ast.unparse(s) for s in stmts].count('self.PerFrameFunctionalGroupsSequence.append(pffg_item)') != 1 \
+            or ast.unparse(stmts[0]) != 'pffg_item = Dataset()' \
+            or sum(1 for n in ast.walk(inner) if isinstance(n, ast.Call) and ast.unparse(n.func) in
+                   ('frames.append', 'self.PerFrameFunctionalGroupsSequence.append')) != 2:
+        raise Unsupported('one frame and one per-frame item per iteration: appends changed')
+    # positions
+    pos_idx = set()
+    for n in ast.walk(inner):
+        if isinstance(n, ast.Subscript) and ast.unparse(n.value) in ('plane_positions', 'plane_position_values'):
+            pos_idx.add(var_of(n.slice, ast.unparse(n.value)))
+    pos_stores = sorted(ast.unparse(n) for n in ast.walk(inner) if isinstance(n, ast.Assign)
+                        and ast.unparse(n.targets[0]).startswith('pffg_item.PlanePosition'))
+    if len(pos_idx) != 1 or len(pos_stores) != 2 or not all(s.endswith(f'= plane_positions[{list(pos_idx)[0]}]') for s in pos_stores):
+        raise Unsupported('plane position / dimension index of a frame are no longer taken at one loop variable: ' + str(pos_stores))
+    if 'frame_content_item.DimensionIndexValues' not in ast.unparse(inner) \
+            or f'enumerate(plane_position_values[{list(pos_idx)[0]}])' not in ast.unparse(inner):
+        raise Unsupported('DimensionIndexValues no longer computed from plane_position_values[<position index>]')
+    # mappings
+    maps = [n for n in ast.walk(inner) if isinstance(n, ast.Subscript) and ast.unparse(n.value) == 'real_world_value_mappings']
+    guard = [n for n in ast.walk(inner) if isinstance(n, ast.If) and ast.unparse(n.test) == 'has_multiple_mappings']
+    if len(maps) != 1 or len(guard) != 1 or guard[0].orelse or \
+            ast.unparse(guard[0].body[-1]) != f'pffg_item.RealWorldValueMappingSequence = real_world_value_mappings[{ast.unparse(maps[0].slice)}]':
+        raise Unsupported('per-frame Real World Value Mapping Sequence is written differently')
+    map_idx = var_of(maps[0].slice, 'real_world_value_mappings')
+    # sharing threshold and the shared item
+    hm = [s for s in ast.walk(init) if isinstance(s, ast.Assign) and ast.unparse(s.targets[0]) == 'has_multiple_mappings']
+    import re
+    m = re.fullmatch(r'pixel_array\.shape\[3\] > (\d+)', ast.unparse(hm[0].value)) if len(hm) == 1 else None
+    if not m:
+        raise Unsupported('has_multiple_mappings is no longer pixel_array.shape[3] > K')
+    thr = int(m.group(1))
+    sh = [s for s in ast.walk(init) if isinstance(s, ast.If) and ast.unparse(s.test) == 'not has_multiple_mappings']
+    m2 = re.fullmatch(r'sffg_item\.RealWorldValueMappingSequence = real_world_value_mappings\[(\d+)\]',
+                      ast.unparse(sh[0].body[-1])) if len(sh) == 1 and not sh[0].orelse else None
+    if not m2:
+        raise Unsupported('shared Real World Value Mapping Sequence is written differently')
+    shared_idx = int(m2.group(1))
+    # what follows the loop
+    k = body.index(outer)
+    before = [ast.unparse(s) for s in body[:k]]
+    if 'frames = []' not in before or 'self.PerFrameFunctionalGroupsSequence = []' not in before:
+        raise Unsupported('frames / PerFrameFunctionalGroupsSequence are no longer started empty before the loop')
+    after = [ast.unparse(s) for s in body[k + 1:]]
+    want_after = ['self.NumberOfFrames = len(frames)',
+                  "if self.file_meta.TransferSyntaxUID.is_encapsulated:\n    pixel_data = encapsulate(frames)\nelse:\n    pixel_data = b''.join(frames)",
+                  'setattr(self, pixel_data_attr, pixel_data)']
+    if after != want_after:
+        raise Unsupported('the statements after the frame loop changed: ' + str(after)[:300])
+    # _encode_frame
+    ef = find_func(tree, 'ParametricMap._encode_frame')
+    eb = [ast.unparse(s) for s in strip_doc(ef.body)]
+    want_ef = ("if self.file_meta.TransferSyntaxUID.is_encapsulated:\n    return encode_frame(pixel_array, "
+               "transfer_syntax_uid=self.file_meta.TransferSyntaxUID, bits_allocated=self.BitsAllocated, "
+               "bits_stored=self.BitsStored, photometric_interpretation=self.PhotometricInterpretation, "
+               "pixel_representation=self.PixelRepresentation)\nelse:\n    return pixel_array.flatten().astype("
+               "pixel_array.dtype.newbyteorder('<'), copy=False).tobytes()")
+    if len(eb) != 2 or not eb[0].startswith('if pixel_array.ndim != 2:') or eb[1] != want_ef:
+        raise Unsupported('ParametricMap._encode_frame changed: ' + str(eb)[:300])
+    sel = lambda v: 'o' if v == ov else 'i'   # noqa: E731
+    n_of = {0: 'shape0', 3: 'shape3'}
+    text = f'''/-- `ParametricMap.__init__`: the frame loop `for {ov} in range(pixel_array.shape[{oa}]): for {iv} in
+    range(pixel_array.shape[{ia}])`; `body o i` is what one iteration appends (`o` the outer, `i` the inner loop variable) -/
+def pmFrameLoop {{α : Type}} (shape0 shape3 : Nat) (body : Nat → Nat → α) : List α :=
+  (List.range {n_of[oa]}).flatMap (fun o => (List.range {n_of[ia]}).map (fun i => body o i))
+
+/-- `plane = pixel_array[{ax0}, :, :, {ax3}]`: (index on axis 0, index on axis 3) -/
+def pmPlaneSubscript (o i : Nat) : Nat × Nat := ({sel(ax0)}, {sel(ax3)})
+
+/-- `plane_positions[{list(pos_idx)[0]}]`, `plane_position_values[{list(pos_idx)[0]}]` (position and dimension index of the frame) -/
+def pmPositionIndex (o i : Nat) : Nat := {sel(list(pos_idx)[0])}
+
+/-- `real_world_value_mappings[{map_idx}]` (per-frame functional group) -/
+def pmMappingIndex (o i : Nat) : Nat := {sel(map_idx)}
+
+/-- `has_multiple_mappings = pixel_array.shape[3] > {thr}` -/
+def pmHasMultipleMappings (shape3 : Nat) : Bool := decide (shape3 > {thr})
+
+/-- `real_world_value_mappings[{shared_idx}]` (shared functional groups, when not `has_multiple_mappings`) -/
+def pmSharedMappingIndex : Nat := {shared_idx}'''
+    return text, span_sha([outer] + hm + sh + body[k + 1:] + strip_doc(ef.body))
+
+
+TARGETS['T19l'] = {'file': 'pm/sop.py', 'build': build_T19l}
